@@ -9,6 +9,17 @@ Part 2: `AssignmentIter` and the brute-force count.
 namespace CnfUtil
 open Spec
 
+/-! ## the derived `BEq` on literals is lawful -/
+
+theorem lit_beq_iff (a b : Lit) : (a == b) = true ↔ a = b := by
+  cases a with | mk av ap => cases b with | mk bv bp =>
+  show (instBEqLit.beq _ _) = true ↔ _
+  simp [instBEqLit.beq]
+
+instance : LawfulBEq Lit where
+  eq_of_beq := fun h => (lit_beq_iff _ _).mp h
+  rfl := (lit_beq_iff _ _).mpr rfl
+
 /-! ## Part 1a: sorting and dedup keep the literal set -/
 
 theorem mem_insertByLabel {x l : Lit} : ∀ {xs : List Lit}, x ∈ insertByLabel l xs ↔ x = l ∨ x ∈ xs
@@ -236,7 +247,7 @@ def asgFn (v : List Bool) : Assign := fun x => v.getD x false
 theorem eval_eq (c : CnfM) (v : List Bool) (h : c.numVars ≤ v.length) :
     eval c v = some (cnfSat (asgFn v) c.clauses) := by
   have : ¬ v.length < c.numVars := by omega
-  simp only [eval, this, if_false, cnfSat, clauseSat, litSat, asgFn]
+  simp only [eval, this, if_false, cnfSat]
   congr 1
   apply List.all_congr rfl; intro cl
   apply List.any_congr rfl; intro l
@@ -255,7 +266,10 @@ theorem evalStrict_clauseLoop (v : List Bool) : ∀ (cl : List Lit) (sat : Bool)
       simp [List.getD, List.getElem?_eq_getElem hl]
     simp only [evalStrict.clauseLoop, hget]
     rw [evalStrict_clauseLoop v r _ (fun x hx => h x (List.mem_cons_of_mem _ hx))]
-    cases sat <;> cases hb : (l.pol == v.getD l.var false) <;> simp [hb]
+    simp only [List.any_cons]
+    generalize (r.any fun l => l.pol == v.getD l.var false) = R
+    generalize (l.pol == v.getD l.var false) = B
+    cases sat <;> cases B <;> cases R <;> rfl
 
 theorem evalStrict_cnfLoop (v : List Bool) : ∀ (cs : List (List Lit)),
     (∀ c ∈ cs, ∀ l ∈ c, l.var < v.length) →
@@ -266,7 +280,7 @@ theorem evalStrict_cnfLoop (v : List Bool) : ∀ (cs : List (List Lit)),
     rw [evalStrict_clauseLoop v c false (h c List.mem_cons_self)]
     simp only [Bool.false_or, List.all_cons]
     cases hc : (c.any fun l => l.pol == v.getD l.var false)
-    · simp
+    · rfl
     · simp only [Bool.true_and]
       exact evalStrict_cnfLoop v cs (fun c' hc' => h c' (List.mem_cons_of_mem _ hc'))
 
@@ -402,7 +416,7 @@ theorem condClause_eq (lit : Lit) : ∀ (c acc : List Lit),
     by_cases h1 : l.var = lit.var <;> by_cases h2 : l.pol = lit.pol
     · simp [h1, h2]
     · have h2' : (l.pol == lit.pol) = false := by simpa using h2
-      simp [h1, h2', condClause_eq lit r acc]
+      simp [h1, h2, h2', condClause_eq lit r acc]
     · simp [h1, condClause_eq lit r (acc ++ [l])]
     · simp [h1, condClause_eq lit r (acc ++ [l])]
 
@@ -410,6 +424,7 @@ theorem any_same_iff_mem (lit : Lit) (c : List Lit) :
     c.any (fun l => l.var == lit.var && l.pol == lit.pol) = c.contains lit := by
   rw [Bool.eq_iff_iff]
   simp only [List.any_eq_true, Bool.and_eq_true, beq_iff_eq, List.contains_iff_mem]
+  show _ ↔ lit ∈ c
   constructor
   · rintro ⟨l, hl, h1, h2⟩
     have : l = lit := by cases l; cases lit; simp_all
@@ -468,5 +483,288 @@ theorem cnfSat_condClauses (a : Assign) (lit : Lit) : ∀ (cs : List (List Lit))
     · have hm : lit ∈ c := by simpa using hc
       simp only [Bool.not_true, Bool.false_eq_true, if_false, ih, clauseSat_upd_of_mem a lit c hm,
         Bool.true_and]
+
+/-! ## Part 2a: `AssignmentIter` counts in binary, index 0 least significant -/
+
+/-- the `n` low bits of `i`, least significant first -/
+def bits : Nat → Nat → List Bool
+  | 0, _ => []
+  | n + 1, i => (i % 2 == 1) :: bits n (i / 2)
+
+@[simp] theorem bits_length : ∀ (n i : Nat), (bits n i).length = n
+  | 0, _ => rfl
+  | n + 1, i => by simp [bits, bits_length n]
+
+theorem bits_zero : ∀ (n : Nat), bits n 0 = List.replicate n false
+  | 0 => rfl
+  | n + 1 => by simp [bits, bits_zero n, List.replicate_succ]
+
+theorem incr_false : ∀ (v : List Bool), incr v false = (v, false)
+  | [] => rfl
+  | b :: v => by simp [incr, incr_false v]
+
+theorem incr_bits : ∀ (n i : Nat), i < 2 ^ n →
+    incr (bits n i) true = (bits n (i + 1), decide (i + 1 = 2 ^ n))
+  | 0, i, h => by
+    have : i = 0 := by simpa using h
+    subst this; rfl
+  | n + 1, i, h => by
+    have hp : 2 ^ (n + 1) = 2 * 2 ^ n := by rw [Nat.pow_succ, Nat.mul_comm]
+    rcases Nat.mod_two_eq_zero_or_one i with h0 | h1
+    · have e1 : (i + 1) % 2 = 1 := by omega
+      have e2 : (i + 1) / 2 = i / 2 := by omega
+      have e3 : ¬ (i + 1 = 2 ^ (n + 1)) := by omega
+      simp [bits, incr, h0, e1, e2, e3, incr_false]
+    · have e1 : (i + 1) % 2 = 0 := by omega
+      have e2 : (i + 1) / 2 = i / 2 + 1 := by omega
+      have hlt : i / 2 < 2 ^ n := by omega
+      have e3 : (i / 2 + 1 = 2 ^ n) ↔ (i + 1 = 2 ^ (n + 1)) := by omega
+      simp [bits, incr, h1, e1, e2, incr_bits n (i / 2) hlt, e3]
+
+theorem iterFrom_bits (n : Nat) : ∀ (k fuel i : Nat), i + 1 + k = 2 ^ n → k < fuel →
+    iterFrom fuel (bits n i) = (List.range' (i + 1) k).map (bits n)
+  | 0, fuel + 1, i, h, _ => by
+    simp [iterFrom, incr_bits n i (by omega), show i + 1 = 2 ^ n by omega]
+  | k + 1, fuel + 1, i, h, hf => by
+    have hne : ¬ (i + 1 = 2 ^ n) := by omega
+    simp only [iterFrom, incr_bits n i (by omega), hne, decide_false, Bool.false_eq_true,
+      if_false, List.range'_succ, List.map_cons]
+    rw [iterFrom_bits n k fuel (i + 1) (by omega) (by omega)]
+
+/-- `AssignmentIter::new(n)` yields the `n`-bit vectors of `0, 1, …, 2^n - 1` in this order -/
+theorem assignmentIter_eq (n : Nat) : assignmentIter n = (List.range (2 ^ n)).map (bits n) := by
+  have hpos : 0 < 2 ^ n := Nat.two_pow_pos n
+  rw [assignmentIter, ← bits_zero, iterFrom_bits n (2 ^ n - 1) (2 ^ n) 0 (by omega) (by omega),
+    List.range_eq_range']
+  have : 2 ^ n = (2 ^ n - 1) + 1 := by omega
+  conv => rhs; rw [this, List.range'_succ]
+  simp
+
+theorem bits_inj : ∀ (n i j : Nat), i < 2 ^ n → j < 2 ^ n → bits n i = bits n j → i = j
+  | 0, i, j, hi, hj, _ => by
+    have h1 : i = 0 := by simpa using hi
+    have h2 : j = 0 := by simpa using hj
+    omega
+  | n + 1, i, j, hi, hj, h => by
+    have hp : 2 ^ (n + 1) = 2 * 2 ^ n := by rw [Nat.pow_succ, Nat.mul_comm]
+    simp only [bits, List.cons.injEq] at h
+    have := bits_inj n (i / 2) (j / 2) (by omega) (by omega) h.2
+    have hb := h.1
+    rcases Nat.mod_two_eq_zero_or_one i with h0 | h0 <;>
+      rcases Nat.mod_two_eq_zero_or_one j with h1 | h1 <;> simp [h0, h1] at hb <;> omega
+
+theorem bits_surj : ∀ (n : Nat) (v : List Bool), v.length = n → ∃ i, i < 2 ^ n ∧ bits n i = v
+  | 0, v, h => ⟨0, by simp, by simp [bits, List.length_eq_zero_iff.mp h]⟩
+  | n + 1, [], h => by simp at h
+  | n + 1, b :: v, h => by
+    have hp : 2 ^ (n + 1) = 2 * 2 ^ n := by rw [Nat.pow_succ, Nat.mul_comm]
+    obtain ⟨i, hi, hv⟩ := bits_surj n v (by simpa using h)
+    refine ⟨2 * i + (if b then 1 else 0), ?_, ?_⟩
+    · split <;> omega
+    · cases b
+      · have e1 : (2 * i + 0) % 2 = 0 := by omega
+        have e2 : (2 * i + 0) / 2 = i := by omega
+        simp only [Bool.false_eq_true, if_false, bits, e1, e2, hv]; rfl
+      · have e1 : (2 * i + 1) % 2 = 1 := by omega
+        have e2 : (2 * i + 1) / 2 = i := by omega
+        simp only [if_true, bits, e1, e2, hv]; rfl
+
+/-- the `x`-th entry of the `i`-th vector is bit `x` of `i` (`Spec.assignOfNat`) -/
+theorem bits_getD : ∀ (n i x : Nat), x < n → (bits n i).getD x false = assignOfNat i x
+  | n + 1, i, 0, _ => by simp [bits, assignOfNat]
+  | n + 1, i, x + 1, h => by
+    have ih := bits_getD n (i / 2) x (by omega)
+    simp only [bits, List.getD_cons_succ, ih, assignOfNat]
+    rw [Nat.shiftRight_succ_inside]
+
+theorem mem_assignmentIter {n : Nat} {v : List Bool} : v ∈ assignmentIter n ↔ v.length = n := by
+  rw [assignmentIter_eq, List.mem_map]
+  constructor
+  · rintro ⟨i, _, rfl⟩; exact bits_length n i
+  · intro h
+    obtain ⟨i, hi, hv⟩ := bits_surj n v h
+    exact ⟨i, List.mem_range.mpr hi, hv⟩
+
+theorem assignmentIter_nodup (n : Nat) : (assignmentIter n).Nodup := by
+  rw [assignmentIter_eq, List.Nodup, List.pairwise_map]
+  refine List.Pairwise.imp_of_mem ?_ (List.pairwise_lt_range (n := 2 ^ n))
+  intro i j hi hj hlt heq
+  have := bits_inj n i j (List.mem_range.mp hi) (List.mem_range.mp hj) heq
+  omega
+
+theorem assignmentIter_length (n : Nat) : (assignmentIter n).length = 2 ^ n := by
+  rw [assignmentIter_eq]; simp
+
+/-! ## Part 2b: the brute-force count is the weighted sum -/
+
+section wmc
+open Bdd
+variable {α : Type} {S : SROps α}
+
+/-- `a` overridden from position `k` on by the entries of `v` -/
+def ovr : Assign → Nat → List Bool → Assign
+  | a, _, [] => a
+  | a, k, b :: v => ovr (upd a k b) (k + 1) v
+
+theorem ovr_apply : ∀ (v : List Bool) (a : Assign) (k x : Nat),
+    ovr a k v x = if x < k then a x else if x < k + v.length then v.getD (x - k) false else a x
+  | [], a, k, x => by
+    by_cases h : x < k
+    · simp [ovr, h]
+    · have : ¬ x < k + 0 := by omega
+      simp only [ovr, h, List.length_nil, this, if_false]
+  | b :: v, a, k, x => by
+    rw [ovr, ovr_apply v]
+    by_cases h1 : x < k
+    · have : x < k + 1 := by omega
+      simp [h1, this, upd_other a b (show x ≠ k by omega)]
+    · by_cases h2 : x = k
+      · subst h2; simp
+      · have h3 : ¬ x < k + 1 := by omega
+        have h4 : x - k = (x - (k + 1)) + 1 := by omega
+        simp only [h1, h3, if_false, List.length_cons, h4, List.getD_cons_succ,
+          upd_other a b h2]
+        have : (x < k + 1 + v.length) ↔ (x < k + (v.length + 1)) := by omega
+        simp only [this]
+
+/-- right-nested product of the chosen weights, variables `k, k+1, …` -/
+def wprod (S : SROps α) (w : Weights α) : Nat → List Bool → α
+  | _, [] => S.one
+  | k, b :: v => S.mul (if b then (w k).2 else (w k).1) (wprod S w (k + 1) v)
+
+def wterm (S : SROps α) (w : Weights α) (f : BoolFn) (a : Assign) (k : Nat) (v : List Bool) : α :=
+  if f (ovr a k v) then wprod S w k v else S.zero
+
+theorem wterm_cons (hS : S.Laws) (w : Weights α) (f : BoolFn) (a : Assign) (k : Nat) (b : Bool)
+    (v : List Bool) :
+    wterm S w f a k (b :: v) =
+      S.mul (if b then (w k).2 else (w k).1) (wterm S w f (upd a k b) (k + 1) v) := by
+  by_cases h : f (ovr (upd a k b) (k + 1) v) = true <;> simp [wterm, ovr, wprod, h, hS.mul_zero]
+
+theorem sumList_map_add (hS : S.Laws) {β : Type} (g h : β → α) : ∀ (l : List β),
+    sumList S (l.map fun b => S.add (g b) (h b)) = S.add (sumList S (l.map g)) (sumList S (l.map h))
+  | [] => by simp [sumList, hS.add_zero]
+  | x :: l => by
+    have := sumList_map_add hS g h l
+    simp only [sumList, List.map_cons, List.foldr_cons] at this ⊢
+    rw [this, sr_add4 hS]
+
+theorem sumList_range_double (hS : S.Laws) (h : Nat → α) : ∀ (m : Nat),
+    sumList S ((List.range (2 * m)).map h) =
+      sumList S ((List.range m).map fun j => S.add (h (2 * j)) (h (2 * j + 1)))
+  | 0 => rfl
+  | m + 1 => by
+    have e : 2 * (m + 1) = 2 * m + 1 + 1 := by omega
+    rw [e, List.range_succ, List.range_succ, List.range_succ (n := m)]
+    simp only [List.map_append, List.map_cons, List.map_nil, List.append_assoc]
+    rw [sumList_append hS, sumList_append hS (l := (List.range m).map _), sumList_range_double hS h m]
+    simp only [sumList, List.cons_append, List.nil_append, List.foldr_cons, List.foldr_nil,
+      hS.add_zero]
+
+theorem sum_bits (hS : S.Laws) (w : Weights α) : ∀ (n k : Nat) (f : BoolFn) (a : Assign),
+    sumList S ((List.range (2 ^ n)).map fun j => wterm S w f a k (bits n j)) =
+      wsum S (List.range' k n) w f a
+  | 0, k, f, a => by
+    simp [sumList, wterm, bits, ovr, wprod, wsum, hS.add_zero]
+  | n + 1, k, f, a => by
+    have hp : 2 ^ (n + 1) = 2 * 2 ^ n := by rw [Nat.pow_succ, Nat.mul_comm]
+    rw [hp, sumList_range_double hS]
+    have e : ∀ j, S.add (wterm S w f a k (bits (n + 1) (2 * j)))
+          (wterm S w f a k (bits (n + 1) (2 * j + 1))) =
+        S.add (S.mul (w k).1 (wterm S w f (upd a k false) (k + 1) (bits n j)))
+          (S.mul (w k).2 (wterm S w f (upd a k true) (k + 1) (bits n j))) := by
+      intro j
+      have e1 : (2 * j) % 2 = 0 := by omega
+      have e2 : (2 * j) / 2 = j := by omega
+      have e3 : (2 * j + 1) % 2 = 1 := by omega
+      have e4 : (2 * j + 1) / 2 = j := by omega
+      simp only [bits, e1, e2, e3, e4, wterm_cons hS]
+      rfl
+    simp only [e]
+    rw [sumList_map_add hS, sumList_map_mul hS, sumList_map_mul hS, sum_bits hS w n (k + 1),
+      sum_bits hS w n (k + 1), List.range'_succ]
+    rfl
+
+theorem asgWeightFrom_eq (hS : S.Laws) (w : Weights α) : ∀ (v : List Bool) (i : Nat) (acc : α),
+    asgWeightFrom S w v i acc = S.mul acc (wprod S w i v)
+  | [], i, acc => by simp [asgWeightFrom, wprod, hS.mul_one]
+  | b :: v, i, acc => by
+    rw [asgWeightFrom, asgWeightFrom_eq hS w v, wprod, hS.mul_assoc]
+
+theorem asgWeight_eq (hS : S.Laws) (w : Weights α) (v : List Bool) :
+    asgWeight S w v = wprod S w 0 v := by
+  rw [asgWeight, asgWeightFrom_eq hS, sr_one_mul hS]
+
+/-- the body of the `for` loop of `Cnf::wmc` -/
+def wmcStep (S : SROps α) (c : CnfM) (w : Weights α) (total : Option α) (asg : List Bool) : Option α :=
+  match total, eval c asg with
+  | some t, some true => some (S.add t (asgWeight S w asg))
+  | some t, some false => some t
+  | _, _ => none
+
+theorem wmc_fold (hS : S.Laws) (c : CnfM) (w : Weights α) : ∀ (L : List (List Bool)) (t : α),
+    (∀ v ∈ L, c.numVars ≤ v.length) →
+    L.foldl (wmcStep S c w) (some t) =
+      some (S.add t (sumList S (L.map fun v =>
+        if cnfSat (asgFn v) c.clauses then asgWeight S w v else S.zero)))
+  | [], t, _ => by simp [sumList, hS.add_zero]
+  | v :: L, t, h => by
+    have hv := h v List.mem_cons_self
+    have hL : ∀ v ∈ L, c.numVars ≤ v.length := fun v hv => h v (List.mem_cons_of_mem _ hv)
+    simp only [List.foldl_cons, List.map_cons, sumList, List.foldr_cons]
+    cases hsat : cnfSat (asgFn v) c.clauses
+    · have : wmcStep S c w (some t) v = some t := by simp [wmcStep, eval_eq c v hv, hsat]
+      rw [this, wmc_fold hS c w L t hL]
+      simp only [Bool.false_eq_true, if_false, sumList, sr_zero_add hS]
+    · have : wmcStep S c w (some t) v = some (S.add t (asgWeight S w v)) := by
+        simp [wmcStep, eval_eq c v hv, hsat]
+      rw [this, wmc_fold hS c w L _ hL]
+      simp only [if_true, sumList, hS.add_assoc]
+
+theorem wmc_eq_fold (S : SROps α) (c : CnfM) (w : Weights α) :
+    wmc S c w = (assignmentIter c.numVars).foldl (wmcStep S c w) (some S.zero) := rfl
+
+theorem cnfSat_congr_vars (a b : Assign) : ∀ (cs : List (List Lit)),
+    (∀ c ∈ cs, ∀ l ∈ c, a l.var = b l.var) → cnfSat a cs = cnfSat b cs := by
+  intro cs h
+  have hcl : ∀ c ∈ cs, clauseSat a c = clauseSat b c := by
+    intro c hc
+    simp only [clauseSat]
+    rw [Bool.eq_iff_iff]
+    simp only [List.any_eq_true]
+    constructor
+    · rintro ⟨l, hl, hs⟩; exact ⟨l, hl, by simpa [litSat, h c hc l hl] using hs⟩
+    · rintro ⟨l, hl, hs⟩; exact ⟨l, hl, by simpa [litSat, h c hc l hl] using hs⟩
+  rw [cnfSat, cnfSat, Bool.eq_iff_iff]
+  simp only [List.all_eq_true]
+  constructor
+  · intro H c hc; rw [← hcl c hc]; exact H c hc
+  · intro H c hc; rw [hcl c hc]; exact H c hc
+
+/-- `Cnf::wmc` (as repaired) of `Cnf::new(cs)` is the weighted sum of the function of `cs` over
+the variables `0 .. num_vars - 1`; it never panics.  For `num_vars = 0` the variable list is
+empty and the sum is `one` or `zero` according to the truth value of the formula. -/
+theorem wmc_cnfNew (hS : S.Laws) (cs : List (List Lit)) (w : Weights α) (a : Assign) :
+    wmc S (cnfNew cs) w = some (wsum S (List.range (cnfNumVars cs)) w (cnfFn cs) a) := by
+  have hn : (cnfNew cs).numVars = cnfNumVars cs := by
+    rw [cnfNew_numVars, numVarsOf_map_normClause, numVarsOf_eq_spec]
+  rw [wmc_eq_fold, wmc_fold hS _ w _ _ (fun v hv => by rw [mem_assignmentIter.mp hv]; exact Nat.le_refl _),
+    sr_zero_add hS, assignmentIter_eq, List.map_map, hn, List.range_eq_range' (n := cnfNumVars cs),
+    ← sum_bits hS w (cnfNumVars cs) 0 (cnfFn cs) a]
+  congr 1
+  apply sumList_map_congr
+  intro j _
+  simp only [Function.comp, wterm, asgWeight_eq hS, cnfFn, cnfNew_clauses, cnfSat_map_normClause]
+  have : cnfSat (asgFn (bits (cnfNumVars cs) j)) cs = cnfSat (ovr a 0 (bits (cnfNumVars cs) j)) cs := by
+    apply cnfSat_congr_vars
+    intro c hc l hl
+    have hlt : l.var < cnfNumVars cs := by
+      rw [← numVarsOf_eq_spec]
+      exact (numVarsOf_le_iff cs _).mp (Nat.le_refl _) c hc l hl
+    simp [asgFn, ovr_apply, hlt]
+  rw [this]
+  rfl
+
+end wmc
 
 end CnfUtil
